@@ -109,14 +109,19 @@ def persist_member(desc, tier, seed):
         sel = [cn for cn in g.choice_nodes if isinstance(cn, SelectionChoiceNode)]
         free = [cn for cn in sel if g.is_constrained_choice(cn) is None]
         if len(free) >= 2 and depth == 0:
-            try:
-                d = g.copy().constrain_choices(ChoiceConstraintType.LINKED, free[:2])
-                add(f'{name}.constrain', d, f'constrain({name})')
-            except Exception:
-                pass
+            # every constraint type, over two and over all free choices (more choices than options empties every option
+            # list up front for PERMUTATION / UNORDERED_NOREPL: choices without options are then resolved on the copy)
+            for ctype in (ChoiceConstraintType.LINKED, ChoiceConstraintType.PERMUTATION, ChoiceConstraintType.UNORDERED,
+                          ChoiceConstraintType.UNORDERED_NOREPL):
+                for k in sorted({2, len(free)}):
+                    try:
+                        d = g.copy().constrain_choices(ctype, free[:k])
+                        add(f'{name}.constrain({ctype.name},{k})', d, f'constrain({name},{ctype.name},{k})')
+                    except Exception:
+                        recheck(f'constrain({name},{ctype.name},{k}) raised')
 
     def add(name, g, op):
-        if len(live) > 60:
+        if len(live) > 90:
             return
         snaps[name] = observe_all(b, g)
         recheck(op)
